@@ -398,6 +398,13 @@ func runCheck(o *checkOpts) int {
 	for _, m := range missing {
 		fmt.Printf("NOTE: contract target missing: %s\n", m)
 	}
+	if o.updateExpected && (len(engineFaults) > 0 || len(missing) > 0) {
+		fmt.Println("expected file NOT updated: engine faults / missing contract targets must be resolved first")
+		for _, ef := range engineFaults {
+			fmt.Println("  ENGINE-FAULT", ef)
+		}
+		return 2
+	}
 	if o.updateExpected {
 		var names []string
 		for _, ob := range allObls {
